@@ -50,7 +50,12 @@ int main(VF_MAIN_ARGS)
 #endif
 #if API == 0
     {
-        unsigned char *buf = (unsigned char *)malloc(N); cJSON_bool ok; int len = N; char *arg;
+        unsigned char *buf; cJSON_bool ok; int len = N; char *arg;
+#if defined(VF_NATIVE) && N == 0
+        buf = (unsigned char *)malloc(8) + 8;     /* ASan's malloc(0) is one byte long: use the end of a block as the empty buffer */
+#else
+        buf = (unsigned char *)malloc(N);
+#endif
         VF_NONNULL(buf);
         for (k = 0; k < N; k++) buf[k] = IN.init[k];
         arg = (char *)buf;
@@ -69,7 +74,6 @@ int main(VF_MAIN_ARGS)
             if (pp_calls == 1) VF_AP(5, pp_item[0] == &item && pp_off[0] == 0 && pp_depth[0] == 0, "C05 the value is printed at offset 0, depth 0");
         }
         VF_AP(9, vf_nreq == 0 && vf_nfree == 0, "C09 printing into a caller buffer neither allocates nor releases");
-        free(buf);
     }
 #else
     {
